@@ -293,7 +293,17 @@ def _get_next_row(ctx, f):
                   if isinstance(n, ast.Call) and isinstance(
                       n.func, ast.Name) and n.func.id == "next"]
     ctx.require(len(next_stmts) == 1, f"{f.qual}: expected one next() call")
+    # del d[k] and d.pop(k) (no default, result unused or not) both retire
+    # the entry
     dels = [e for e in evs if e.kind == "del"]
+    for e in evs:
+        if e.kind == "pop" and len(e.args) == 1 and not e.kwargs:
+            class _P:       # a 'del' view of the pop event
+                pass
+            v_ = _P()
+            v_.kind, v_.recv, v_.key = "del", e.recv, e.args[0]
+            v_.stmt, v_.node, v_.args = e.stmt, e.node, ()
+            dels.append(v_)
     ok_del = sorted(root_name(e.recv) or "?" for e in dels) == sorted(
         [HEADS_N, ITERS_N]) and all(is_key(e.key) for e in dels)
     why = f"deletes {[ast.unparse(e.stmt)[:60] for e in dels]}"
@@ -394,9 +404,15 @@ def _merge_sort(ctx, f):
     def nonempty_of(test):
         """the container the loop test says is non-empty, else None"""
         tt = Tn.of(test)
-        if tt[0] == "cmp" and tt[1] == "!=" and ("dict", (), ()) in (
+        pos = True
+        while tt[0] == "un" and tt[1] == "not":
+            tt, pos = tt[2], not pos
+        if tt[0] == "cmp" and ((tt[1] == "!=" and pos) or (
+                tt[1] == "==" and not pos)) and ("dict", (), ()) in (
                 tt[2], tt[3]):
             return tt[3] if tt[2] == ("dict", (), ()) else tt[2]
+        if not pos:
+            tt = ("un", "not", tt)
         n = norm_cmp(tt, True)
         if n is not None:
             ln = [x for x in n[1:] if x[0] == "call"
@@ -454,8 +470,11 @@ def _merge_sort(ctx, f):
     for y in ys:
         yd = Tn.of(y.value) if y.value is not None else ("x",)
         ok_y = yd[:2] == ROW
+        wt_ = Tn.of(w.test)
+        while wt_[0] == "un" and wt_[1] == "not":
+            wt_ = wt_[2]
         for t_, o in cond_terms(cfg, Tn, y):
-            if t_ == Tn.of(w.test):
+            if t_ == wt_:
                 continue
             n = t_[0] == "cmp" and t_[1] in ("is", "is not") and \
                 t_[2][:2] == ROW and t_[3] == ("const", None)
